@@ -420,14 +420,14 @@ func genCase(route string, maxN int) *rapid.Generator[Case] {
 }
 
 func TestRandomLongAST(t *testing.T) {
-	vt.Check(t, vt.N(60000, 1500000), func(rt *rapid.T) {
+	vt.Check(t, vt.N(60000, 6000000), func(rt *rapid.T) {
 		vt.Class("random ast")
 		run(rt, genCase("ast", 40).Draw(rt, "case"), true)
 	})
 }
 
 func TestRandomSource(t *testing.T) {
-	vt.Check(t, vt.N(30000, 400000), func(rt *rapid.T) {
+	vt.Check(t, vt.N(30000, 1500000), func(rt *rapid.T) {
 		vt.Class("random source")
 		run(rt, genCase("source", 12).Draw(rt, "case"), true)
 	})
